@@ -49,6 +49,9 @@ CHECKS = {
     "C19": ("exploration", "bumpmc grid engine (overflow)", "§4 C19",
             "Exhaustive grid: 29 size-taking entry points x element sizes x 16 count classes around every overflow boundary x MIN_ALIGN x empty/non-empty container; impossible totals must end in Err/panic, any success must be backed by a held block, lengths must equal the mathematical value.",
             "exhaustive boundary-grid enumeration"),
+    "C20": ("model_checking", "bumpmc pair model + c20_loom (loom 0.7)", "§4 C20",
+            "Sequential product exploration of two/three arenas (solo-trace = interleaved-trace, other arenas untouched, every bookkeeping store inside the acting arena's own chunks) plus loom exploration of all schedules of threads each driving its own arena, with the crate's shared static modelled as a loom cell so that unsynchronised conflicting accesses are reported.",
+            "exhaustive interleaving enumeration (own BFS) + loom DPOR schedule exploration"),
 }
 
 PENDING = {
@@ -101,7 +104,7 @@ def main():
 
 
 NOTES = {}
-ENGINES = []
+ENGINES = [{"name": "c20_loom", "path": "/verif/engine/c20_loom", "serves_properties": ["C20"], "kind_free_text": "loom 0.7 model of threads each driving its own arena; hook-driven race detection on the shared static"}]
 
 if __name__ == "__main__":
     main()
